@@ -74,6 +74,7 @@ def run(ctx: Ctx):
     n_cases = 4000 if ctx.thorough else 600
 
     # ---------------- stream A: injected completion orders
+    corr_broken = []
     FakeParallel.rng = rng
     P.Parallel = FakeParallel
     try:
@@ -123,7 +124,11 @@ def run(ctx: Ctx):
             nontrivial = n >= 2 and arrivals is not None
             ctx.case({"mode": mode, "n": n, "n_jobs": n_jobs, "xs": xs[:6], "arrivals": (arrivals or [])[:6]},
                      nontrivial=nontrivial, branches=["unordered-collect" if arrivals is not None else "sequential"])
-            if m != want:
+            if isinstance(m, dict) and "err" in m:
+                # the arrival sequence no longer has the shape the model expects (e.g. jobs tagged differently):
+                # the correspondence is broken; the property itself is still judged by the spec below
+                corr_broken.append({"mode": mode, "n": n, "arrivals": (arrivals or [])[:8], "model_reply": m})
+            elif m != want:
                 raise RuntimeError(f"Lean model disagrees with its own proved spec: {m} vs {want}")
             if got_c != want:
                 ctx.fail(key, "parallel() returned a result at the wrong position / key",
@@ -158,3 +163,8 @@ def run(ctx: Ctx):
         if not ok:
             ctx.fail(key, "parallel() with real joblib returned a result at the wrong position / key",
                      {"n_jobs": n_jobs, "xs": xs, "sleeps": sleeps, "got": str(got)[:2000], "want": expect})
+    if corr_broken and ctx.n_violations() == 0:
+        ctx.broken("correspondence C32: the arrival sequence observed at joblib.Parallel no longer matches the model's tagged "
+                   "(index|key, value) arrivals, so collect_perm / dict_collect no longer speak about this code; no failing input found",
+                   {"examples": corr_broken[:3], "count": len(corr_broken)})
+    ctx.cov["correspondence_broken_cases"] = len(corr_broken)
